@@ -141,7 +141,7 @@ def diagnose_count(header, row):
     return bad
 
 
-def count_part(chk, pairs, nlong, nreal, seed, tag, maxlen=10000):
+def count_part(chk, pairs, nlong, nreal, seed, tag, maxlen=10000, report=True):
     pf = os.path.join(chk.wd, "pairs_%s.ndjson" % tag)
     write_ndjson(pf, [dict(a=p["a"], b=p["b"]) for p in pairs])
     tf = os.path.join(chk.wd, "count_%s.ndjson" % tag)
@@ -182,11 +182,12 @@ def count_part(chk, pairs, nlong, nreal, seed, tag, maxlen=10000):
         bad = diagnose_count(header, row)
         first = bad[0] if bad else dict(entry_points=["?"], outcome="?")
         ep = first["entry_points"][0].split("<")[0]
-        scen = dict(kind="count", event_op=row["op"], mode=row.get("mode", "long"), seed=seed, nlong=nlong, nreal=nreal,
+        scen = dict(kind="count", event_op=row["op"], mode=("long" if row["op"] == "long" else row["mode"]), seed=seed, nlong=nlong, nreal=nreal,
                     maxlen=maxlen, line=ln, disagreeing=bad[:6],
                     pair=dict(a=row["calls"][0]["a"], b=row["calls"][0]["b"]) if row.get("mode") == "pair" else None,
                     event=(row if len(json.dumps(row)) < 20000 else dict(op=row["op"], n=row.get("n"), nb=row.get("nb"))))
-        chk.violation(dict(kind="count", mode=scen["mode"], entry=ep, outcome=first["outcome"]), scen)
+        if report:
+            chk.violation(dict(kind="count", mode=scen["mode"], entry=ep, outcome=first["outcome"]), scen)
     if pairs and tag in ("p0", "st"):
         mid = rows[1 + (len(pairs) * 2) // 3]
         chk.sample(dict(kind="pair-event", a=mid["calls"][0]["a"], b=mid["calls"][0]["b"],
@@ -212,7 +213,7 @@ def mle_jobs(shapes, params, types, reps):
     return jobs
 
 
-def mle_part(chk, jobs, seed, tag):
+def mle_part(chk, jobs, seed, tag, report=True):
     jf = os.path.join(chk.wd, "jobs_%s.ndjson" % tag)
     write_ndjson(jf, jobs)
     tf = os.path.join(chk.wd, "mle_%s.ndjson" % tag)
@@ -239,7 +240,8 @@ def mle_part(chk, jobs, seed, tag):
         r = rows[ln - 1]
         scen = dict(kind="mle", seed=seed, job=r["jobspec"], observed={k: r[k] for k in (
             "out", "j", "c1", "c2", "deq", "m", "b_sup", "in_bracket", "at_edge", "cause", "msg", "zeros", "params")})
-        chk.violation(dict(kind="mle", outcome=r["out"], cause=r["cause"], cls=r["class"]), scen)
+        if report:
+            chk.violation(dict(kind="mle", outcome=r["out"], cause=r["cause"], cls=r["class"]), scen)
     good = [r for r in ev if r["cause"] == "-" and r["class"] == "nested"]
     if good:
         r = good[len(good) // 2]
@@ -297,14 +299,14 @@ def replay(chk, path):
     build_harness("c14")
     if sc["kind"] == "count":
         if sc.get("pair"):
-            tf, rows, rej = count_part(chk, [sc["pair"]], 0, 0, sc["seed"], "replay")
+            tf, rows, rej = count_part(chk, [sc["pair"]], 0, 0, sc["seed"], "replay", report=False)
         else:
-            tf, rows, rej = count_part(chk, [], sc["nlong"], sc["nreal"], sc["seed"], "replay", sc.get("maxlen", 10000))
+            tf, rows, rej = count_part(chk, [], sc["nlong"], sc["nreal"], sc["seed"], "replay", sc.get("maxlen", 10000), report=False)
         for ln in rej:
             for b in diagnose_count(rows[0], rows[ln - 1])[:4]:
                 log(json.dumps(b)[:600])
     else:
-        tf, rows, rej = mle_part(chk, [sc["job"]], sc["seed"], "replay")
+        tf, rows, rej = mle_part(chk, [sc["job"]], sc["seed"], "replay", report=False)
         for ln in rej:
             r = rows[ln - 1]
             log(json.dumps({k: r[k] for k in ("params", "ty", "shape", "out", "cause", "j", "c1", "c2", "deq", "b_sup", "msg")}))
